@@ -500,12 +500,32 @@ Proof.
   destruct (ty_of m h); cbn in *; auto.
 Qed.
 
-Lemma post_recvfds m o h : o <> OLoopClose -> hok m h HAcc = true -> minv m ->
-  forall n (W : owner -> Prop), (forall ow, W ow -> okown m ow) -> post (op_recvfds m h n) W (Qop m o).
+Lemma post_recv_keep m (Q : mstate * nat -> (owner -> Prop) -> Prop) h : hok m h HAcc = true ->
+  forall n (W : owner -> Prop) c, (forall ow, W ow -> okown m ow) ->
+  (forall W' : owner -> Prop, (forall ow, W' ow -> okown m ow) -> post c W' Q) ->
+  post (recv_keep h n c) W Q.
 Proof.
-  intros Ho Hh Hm. induction n as [|n IH]; intros W HW; walk;
-    try (apply IH; intros ow Hw; decode; auto; try (apply okown_queued; assumption); fail);
-    leaf0; fin; auto; congruence.
+  intros Hh. induction n as [|n IH]; intros W c HW Hc; walk; auto;
+    apply IH; auto; intros ow Hw; decode; auto; apply okown_queued; assumption.
+Qed.
+
+Lemma post_recv_drop m (Q : mstate * nat -> (owner -> Prop) -> Prop) :
+  forall n j (W : owner -> Prop) c, (forall ow, W ow -> okown m ow \/ is_temp ow = true) ->
+  (forall W' : owner -> Prop, (forall ow, W' ow -> okown m ow \/ is_temp ow = true) -> post c W' Q) ->
+  post (recv_drop j n c) W Q.
+Proof.
+  induction n as [|n IH]; intros j W c HW Hc; walk; auto;
+    apply IH; auto; intros ow Hw; decode; auto.
+Qed.
+
+Lemma post_recvfds m o h n keep : o <> OLoopClose -> hok m h HAcc = true -> minv m ->
+  post (op_recvfds m h n keep) (okown m) (Qop m o).
+Proof.
+  intros Ho Hh Hm. unfold op_recvfds. destruct (Nat.leb n keep).
+  - apply (post_recv_keep m); auto. intros W' HW'. walk; leaf0; fin; auto; congruence.
+  - apply (post_recv_keep m); auto. intros W' HW'. apply (post_recv_drop m); auto.
+    intros W2 HW2. walk; leaf0; fin; try congruence.
+    destruct (HW2 _ H); auto. congruence.
 Qed.
 
 Lemma okown_closed m h st o :
@@ -1007,8 +1027,14 @@ Ltac walkcx :=
 
 Lemma cx_accept_shed m l h : forall fuel, all_cx (accept_shed fuel l h m).
 Proof. induction fuel; walkcx; auto. Qed.
-Lemma cx_recvfds m h : forall n, all_cx (op_recvfds m h n).
-Proof. induction n; walkcx; auto. Qed.
+Lemma cx_recv_keep h : forall n c, all_cx c -> all_cx (recv_keep h n c).
+Proof. induction n; intros c Hc; walkcx; auto. Qed.
+Lemma cx_recv_drop : forall n j c, all_cx c -> all_cx (recv_drop j n c).
+Proof. induction n; intros j c Hc; walkcx; auto. Qed.
+Lemma cx_recvfds m h n keep : all_cx (op_recvfds m h n keep).
+Proof.
+  unfold op_recvfds. destruct (Nat.leb n keep); repeat (apply cx_recv_keep || apply cx_recv_drop); exact I.
+Qed.
 Lemma cx_spawn_unwind m : forall done c, all_cx c -> all_cx (spawn_unwind m done c).
 Proof. induction done as [|sh r IH]; intros c Hc; walkcx; auto. apply IH. destruct x; [destruct (m_fixed m)|]; cbn; auto. Qed.
 Lemma cx_spawn_open m rc : forall sd i done, all_cx (spawn_open m i sd done rc).
@@ -1152,8 +1178,14 @@ Ltac walkcl :=
 
 Lemma cl_accept_shed m l h : forall fuel, closes_lib (accept_shed fuel l h m).
 Proof. induction fuel; walkcl; auto. Qed.
-Lemma cl_recvfds m h : forall n, closes_lib (op_recvfds m h n).
-Proof. induction n; walkcl; auto. Qed.
+Lemma cl_recv_keep h : forall n c, closes_lib c -> closes_lib (recv_keep h n c).
+Proof. induction n; intros c Hc; walkcl; auto. Qed.
+Lemma cl_recv_drop : forall n j c, closes_lib c -> closes_lib (recv_drop j n c).
+Proof. induction n; intros j c Hc; walkcl; auto. Qed.
+Lemma cl_recvfds m h n keep : closes_lib (op_recvfds m h n keep).
+Proof.
+  unfold op_recvfds. destruct (Nat.leb n keep); repeat (apply cl_recv_keep || apply cl_recv_drop); walkcl.
+Qed.
 Lemma cl_spawn_unwind m : forall done c, closes_lib c -> closes_lib (spawn_unwind m done c).
 Proof. induction done as [|sh r IH]; intros c Hc; walkcl; auto. apply IH. destruct x; [destruct (m_fixed m)|]; cbn; auto. Qed.
 Lemma cl_spawn_open m rc : forall sd i done, closes_lib (spawn_open m i sd done rc).
@@ -1214,34 +1246,33 @@ Proof.
 Qed.
 
 Theorem stdio_survives_uv_close m s h fd e :
-  m_abort m = false -> is_open m h = true -> is_stream (ty_of m h) = true ->
+  m_abort m = false -> hok m h HIo = true ->
   In (fd, e) (i_led s) -> e_owner e = OHandle h HIo -> fd <= 2 ->
   In (fd, set_owner OUser e) (i_led (snd (step (m, s) (OClose h)))).
 Proof.
-  intros Ha Ho Ht Hin Hown Hfd.
+  intros Ha Hk Hin Hown Hfd. unfold hok in Hk. apply andb_true_iff in Hk. destruct Hk as [Ho Ht].
   unfold step, op_prog. cbn [fst snd]. rewrite Ha. unfold op_close. rewrite Ho. cbn [negb].
-  assert (Hty : ty_of m h = TTcp \/ ty_of m h = TPipe) by (destruct (ty_of m h); auto; discriminate).
-  assert (Hstep : forall t, t = TTcp \/ t = TPipe ->
-    match t with
-    | TTcp | TPipe => CloseIf (own_is (OHandle h HIo)) true
-        (close_field (OHandle h HAcc) (CloseIf (is_queued h) false (Ret (set_hst m h HClosing, RC_OK))))
-    | TUdp => close_field (OHandle h HIo) (Ret (set_hst m h HClosing, RC_OK))
-    | TOther => Ret (set_hst m h HClosing, RC_OK)
-    end = CloseIf (own_is (OHandle h HIo)) true
-        (close_field (OHandle h HAcc) (CloseIf (is_queued h) false (Ret (set_hst m h HClosing, RC_OK))))).
-  { intros t [-> | ->]; reflexivity. }
-  rewrite (Hstep _ Hty). clear Hstep. unfold close_field. cbn [run_prog].
-  destruct (close_if (own_is (OHandle h HIo)) true (i_led s)) as [L1 ev1] eqn:E1. cbn [i_led i_orc i_tr].
-  destruct (close_if (own_is (OHandle h HAcc)) false L1) as [L2 ev2] eqn:E2. cbn [i_led i_orc i_tr].
-  destruct (close_if (is_queued h) false L2) as [L3 ev3] eqn:E3. cbn [i_led i_orc i_tr fst snd].
-  assert (H1 : In (fd, set_owner OUser e) L1).
-  { pose proof (close_if_keeps (own_is (OHandle h HIo)) (i_led s) fd e Hin) as K.
-    rewrite E1 in K. apply K; auto. rewrite Hown. apply own_is_refl. }
-  assert (H2 : In (fd, set_owner OUser e) L2).
-  { pose proof (close_if_other (own_is (OHandle h HAcc)) false L1 _ H1) as K. rewrite E2 in K. apply K. reflexivity. }
-  assert (H3 : In (fd, set_owner OUser e) L3).
-  { pose proof (close_if_other (is_queued h) false L2 _ H2) as K. rewrite E3 in K. apply K. reflexivity. }
-  exact H3.
+  assert (H1 : forall L ev, close_if (own_is (OHandle h HIo)) true (i_led s) = (L, ev) ->
+                            In (fd, set_owner OUser e) L).
+  { intros L ev E. pose proof (close_if_keeps (own_is (OHandle h HIo)) (i_led s) fd e Hin) as K.
+    rewrite E in K. apply K; auto. rewrite Hown. apply own_is_refl. }
+  assert (Hstream : forall L1 ev1, close_if (own_is (OHandle h HIo)) true (i_led s) = (L1, ev1) ->
+    In (fd, set_owner OUser e)
+       (i_led (snd (run_prog (close_field (OHandle h HAcc)
+           (CloseIf (is_queued h) false (Ret (set_hst m h HClosing, RC_OK))))
+           (mkI L1 (i_orc s) (rev ev1 ++ i_tr s)))))).
+  { intros L1 ev1 E1. unfold close_field. cbn [run_prog i_led i_orc i_tr].
+    destruct (close_if (own_is (OHandle h HAcc)) false L1) as [L2 ev2] eqn:E2. cbn [i_led i_orc i_tr].
+    destruct (close_if (is_queued h) false L2) as [L3 ev3] eqn:E3. cbn [i_led i_orc i_tr fst snd].
+    pose proof (close_if_other (own_is (OHandle h HAcc)) false L1 _ (H1 _ _ E1)) as K2. rewrite E2 in K2.
+    pose proof (close_if_other (is_queued h) false L2 _ (K2 eq_refl)) as K3. rewrite E3 in K3.
+    exact (K3 eq_refl). }
+  destruct (ty_of m h); try discriminate; cbn [run_prog];
+    destruct (close_if (own_is (OHandle h HIo)) true (i_led s)) as [L1 ev1] eqn:E1;
+    cbn [i_led i_orc i_tr fst snd].
+  - destruct (run_prog _ _) as [r0 s0] eqn:Er. pose proof (Hstream _ _ eq_refl) as K. rewrite Er in K. exact K.
+  - destruct (run_prog _ _) as [r0 s0] eqn:Er. pose proof (Hstream _ _ eq_refl) as K. rewrite Er in K. exact K.
+  - exact (H1 _ _ eq_refl).
 Qed.
 
 (* ------------------------------------------------------------------ *)
@@ -1364,8 +1395,14 @@ Ltac walknr :=
 
 Lemma nr_accept_shed m l h : forall fuel, no_raw (accept_shed fuel l h m).
 Proof. induction fuel; walknr; auto. Qed.
-Lemma nr_recvfds m h : forall n, no_raw (op_recvfds m h n).
-Proof. induction n; walknr; auto. Qed.
+Lemma nr_recv_keep h : forall n c, no_raw c -> no_raw (recv_keep h n c).
+Proof. induction n; intros c Hc; walknr; auto. Qed.
+Lemma nr_recv_drop : forall n j c, no_raw c -> no_raw (recv_drop j n c).
+Proof. induction n; intros j c Hc; walknr; auto. Qed.
+Lemma nr_recvfds m h n keep : no_raw (op_recvfds m h n keep).
+Proof.
+  unfold op_recvfds. destruct (Nat.leb n keep); repeat (apply nr_recv_keep || apply nr_recv_drop); exact I.
+Qed.
 Lemma nr_spawn_unwind m : m_fixed m = true -> forall done c, no_raw c -> no_raw (spawn_unwind m done c).
 Proof.
   intros Hf. induction done as [|sh r IH]; intros c Hc; walknr; auto.
